@@ -199,7 +199,11 @@ class DocGen:
         return '<![CDATA[' + body + ']]>'
 
     def pi(self):
-        name = self.rng.choice(['php', 'foo', 'p', 'x', 'xml-stylesheet', 'xmlfoo'])
+        name = self.rng.choice(['php', 'foo', 'p', 'x', 'xml-stylesheet', 'xmlfoo',
+                                # targets are XML names: one that merely begins with the code-block target is an ordinary instruction
+                                'python-markdown', 'pythonx', 'python.doc', 'python:ext', 'Python', 'php-x', 'a.b', 'ns:pi', 'python_'])
+        if name.lower().startswith('python'):
+            self.knobs.add('pi-target-beginning-with-python')
         if name.startswith('xml'):
             self.knobs.add('pi-xml-prefixed-target')
         # an instruction ends at the first '?>', whatever quotes or apostrophes its data holds
@@ -274,7 +278,7 @@ class DocGen:
 
 
 def active(d):
-    return ('${' in d or '$$' in d or '<!--!' in d or '<!--?' in d or '<?python' in d)
+    return ('${' in d or '$$' in d or '<!--!' in d or '<!--?' in d or re.search(r'<\?python(?![\w.:-])', d) is not None)
 
 
 def expected_identity(src):
